@@ -1,7 +1,7 @@
 /-
   MultiModel.Lapack — transcription of include/boost/multi/adaptors/lapack/{filling,potrf,geqrf,gesvd,syev}.hpp
-  (getrf.hpp does not compile at the pinned commit and is not modelled; syev.hpp does not compile either — its three
-  `#include <…hpp"` lines are malformed and `core::syev` is never declared — it is transcribed from the source text).
+  (getrf.hpp does not compile at the pinned commit and is not modelled; syev.hpp compiles since the fix commit
+  "syev.hpp compiles…": well-formed #include lines, `core::syev` instantiated, member `base()`/`rotated()`).
 
   A call is the tuple of integer arguments and pointers (as element offsets from the buffer start) handed to the
   Fortran routine.  LAPACK addresses a matrix in column-major order: element (i, j) of a matrix at `a` with leading
@@ -106,7 +106,7 @@ def gesvdAsserts (AA UU ss VV : View) : Bool :=
   AA.size == UU.size && AA.size1 == VV.size && ss.size == min UU.size VV.size &&
   AA.stride1 == 1 && ss.stride0 == 1 && UU.stride1 == 1 && VV.stride1 == 1
 
-/-! ### syev (from the source text; the header does not compile) -/
+/-! ### syev -/
 
 structure SyevCall where
   jobz : Char
@@ -119,17 +119,27 @@ structure SyevCall where
   lwork : Int
 deriving DecidableEq, Repr, Inhabited
 
-/-- `syev(uplo, a, w, work)` syev.hpp:23-45: `none` is the `assert(0)` "case not contemplated by lapack" -/
+/-- `syev(uplo, a, w, work)` syev.hpp:21-47: `none` is the `assert(0)` "case not contemplated by lapack".
+    First branch `a.rotated().stride() == 1` (unit inner stride), second `stride(a) == 1`. -/
 def syevCall (uplo : Filling) (a w work : View) : Option SyevCall :=
   if a.stride1 = 1 then
     some ⟨'V', if uplo = .upper then 'L' else 'U', a.size, a.base, a.stride0, w.base, work.base, work.size⟩
   else if a.stride0 = 1 then
     some ⟨'V', if uplo = .upper then 'U' else 'L', a.size, a.base, a.stride1, w.base, work.base, work.size⟩
   else none
+/-- the four assertions at the top of `syev` (24-27) -/
 def syevAsserts (a w work : View) : Bool :=
   decide (work.size ≥ max 1 (3 * a.size - 1)) && a.size == w.size && w.stride0 == 1 && work.stride0 == 1
-/-- returned view `a({0, size(a) − info}, {0, size(a) − info})` -/
+/-- returned view `a({0, size(a) − info}, {0, size(a) − info})` (46) -/
 def syevResult (a : View) (info : Int) : View := a.paren [Arg.rng 0 (a.size - info), Arg.rng 0 (a.size - info)]
+
+/-- the workspace the three-argument overload allocates: `Array1DW(std::max(1L, 3*size(a) - 1L), …)` (52-53): a fresh
+    contiguous 1-D array, not part of the caller's storage -/
+def syevAutoWork (a : View) (freshBase : Int) : View := ⟨freshBase, Layout.ofExts [⟨0, max 1 (3 * a.size - 1)⟩]⟩
+/-- `a.decay()` of the `const&` overloads (58, 77): a fresh row-major array with the extensions of `a` -/
+def decayView (a : View) (freshBase : Int) : View := ⟨freshBase, Layout.ofExts a.exts⟩
+/-- the eigenvalue array `multi::array<…, 1>(size(a))` of the two-argument overloads (66, 79) -/
+def syevAutoW (a : View) (freshBase : Int) : View := ⟨freshBase, Layout.ofExts [⟨0, a.size⟩]⟩
 
 /-! ### LAPACK contracts (trusted; over a commutative ring, real case) -/
 
@@ -154,6 +164,15 @@ def GesvdPost (c : GesvdCall) (mem mem' : Int → R) : Prop :=
   ∀ i j : Nat, (i : Int) < c.m → (j : Int) < c.n →
     sumTo (min c.m c.n).toNat (fun k => mem' (colMajor c.u c.ldu i k) * mem' (c.s + k) * mem' (colMajor c.vt c.ldvt k j))
       = mem (colMajor c.a c.lda i j)
+
+/-- `DSYEV` with `jobz = 'V'`, `info = 0`: with `B` the symmetric matrix whose selected triangle is read from the pre-state,
+    column `k` of the post-state of `A` is an eigenvector for the eigenvalue `w[k]`: `Σ_j B(i,j)·Z(j,k) = w_k·Z(i,k)` -/
+def SyevPost (c : SyevCall) (mem mem' : Int → R) : Prop :=
+  let cm := fun (i j : Nat) => colMajor c.a c.lda i j
+  let B := fun (i j : Nat) =>
+    if c.uplo = 'U' then (if i ≤ j then mem (cm i j) else mem (cm j i)) else (if j ≤ i then mem (cm i j) else mem (cm j i))
+  ∀ i k : Nat, (i : Int) < c.n → (k : Int) < c.n →
+    sumTo c.n.toNat (fun j => B i j * mem' (cm j k)) = mem' (c.w + k) * mem' (cm i k)
 
 end Contracts
 end Multi
